@@ -112,6 +112,12 @@ add("F15", ["C19"], "C19.env|env|compiler::mirgen::MacroFileEnvGuard::new|set_va
 add("F15", ["C19"], "C19.env|env|compiler::mirgen::MacroFileEnvGuard::new|remove_var", "same defect: a compilation without a file path removes the variable while another thread's macro expansion relies on it; the Drop of one guard also restores a stale value under the other thread")
 
 
+# ---- run-time primitives aborting on values (C03.value-aborts) -------------------------------------------
+add("F42", ["C03"], "C03.value-aborts|abort|plugin::builtin_functins::try_make_specialized_extcls|length of a run-time object|panic!(\"Cannot split_head on empty array\")", "`let (h,t) = split_head([1.0])  split_head(t)`: the VM builtin panics (`Cannot split_head on empty array`) and the WASM host function panics (`array shorter than one element`): an accepted program aborts the process for an array that became empty at run time (findings/repro/F42_split_head_*.mmm); also at the macro stage")
+add("F42", ["C03"], "C03.value-aborts|abort|plugin::builtin_functins::try_make_specialized_extcls|length of a run-time object|panic!(\"Cannot split_tail on empty array\")", "same for split_tail (findings/repro/F42_split_tail_*.mmm)")
+add("F43", ["C03"], "C03.value-aborts|abort|plugin::builtin_functins::str_char_at::macro_function|string index / parse result|panic!( \"str_char_at: index {} out of bounds for s", "macro stage: `str_char_at(\"abc\", 5.0)` panics the compiler (both back ends) instead of a diagnostic (findings/repro/F43_*.mmm)")
+
+
 def main():
     extra = os.path.join(HERE, "tools", "findings_more.py")
     if os.path.exists(extra):
@@ -125,3 +131,4 @@ def main():
 
 if __name__ == "__main__":
     main()
+
